@@ -35,7 +35,7 @@ class MemDUT(Module):
         self.sram = None
         if kind in ("down", "up", "conv", "cache"):
             sadr = adrw + (log2_int(mw//sw) if mw > sw else -log2_int(sw//mw))
-            self.slave = s = wishbone.Interface(data_width=sw, adr_width=sadr)
+            self.slave = s = wishbone.Interface(data_width=sw, adr_width=sadr, bursting=p.get("bursting", False))
             if kind == "down":
                 self.submodules.dut = wishbone.DownConverter(self.master, s)
             elif kind == "up":
@@ -316,6 +316,10 @@ SEL32 = (0b0000, 0b0001, 0b1000, 0b0110, 0b1111, 0b0011, 0b1100)
 reg("DownConverter(16->8)", "quick", kind="down", mw=16, sw=8, adrs=(0, 1), nbytes=4)
 reg("DownConverter(32->8)", "quick", kind="down", mw=32, sw=8, adrs=(0, 1), sels=SEL32, nbytes=8, marks=(1,))
 reg("DownConverter(32->16)", "quick", kind="down", mw=32, sw=16, adrs=(0, 1), sels=SEL32, nbytes=8, marks=(1,))
+# bursts through the converter into the real burst-capable SRAM (cti/bte translation): linear, constant and wrapping bursts that start
+# inside their wrap window
+reg("DownConverter(16->8)+SRAM(bursting)", "quick", kind="down", mw=16, sw=8, adrs=(0, 1), nbytes=32, bursting=True, backing="sram", marks=(1,),
+    bursts=tuple((we, a, kind, n) for we in (0, 1) for (a, kind, n) in ((0, "lin", 3), (1, "wrap4", 4), (2, "wrap4", 3), (2, "const", 2))))
 reg("DownConverter(32->8),2marks", "thorough", kind="down", mw=32, sw=8, adrs=(0,), sels=SEL32, nbytes=4)
 reg("DownConverter(16->8),lat2", "thorough", kind="down", mw=16, sw=8, adrs=(0, 1, 2), nbytes=8, maxlat=2, marks=(1,))
 reg("DownConverter(64->8)", "thorough", kind="down", mw=64, sw=8, adrs=(0,), sels=(0, 1, 0x80, 0xFF, 0x18, 0xF0), nbytes=8, marks=(1,))
